@@ -471,6 +471,38 @@ KeyChecks(e) ==
         )
 
 (***************************************************************************)
+(* Further API surface: lists of records as a value, the EnrKey /          *)
+(* EnrPublicKey traits of the built-in key types, key generation           *)
+(***************************************************************************)
+\* Vec<Enr<K>>: the encoding is the RLP list of the records' encodings, and it decodes back to them
+EncListChecks(e) ==
+  <<Chk("C03", "list_codec_panics", e.panics = <<>>),
+    Chk("C13", "list_encoding_is_list_of_encodings", e.out = EncList(e.encs)),
+    Chk("C13", "encoded_list_decodes_back",
+        e.kind = "ok" /\ e.rest = 0 /\ Len(e.cores) = Len(e.origs)
+        /\ \A k \in 1..Len(e.origs) : e.tab[e.cores[k]] = e.tab[e.origs[k]]),
+    Chk("C15", "decoded_list_elements_equal_originals", e.kind = "ok" => e.all_eq)>>
+
+\* public-key side of a key: encoded form, entry name, node id, sign / verify through the traits
+PubKeyChecks(e) ==
+  LET r == e.r  secp == e.spk.scheme = "secp" IN
+  <<Chk("C03", "key_trait_panics", e.panics = <<>>),
+    Chk("C11", "public_key_encoding", r.encode = e.spk.pk /\ Len(r.encode) = (IF secp THEN 33 ELSE 32)),
+    Chk("C11", "public_key_entry_name", r.enr_key = PkKeyOf(e.spk.scheme)),
+    Chk("C10", "node_id_of_public_key", r.nid = e.spk.nid),
+    Chk("C10", "uncompressed_form", IF secp THEN Len(r.uncompressed) = 64 ELSE r.uncompressed = e.spk.pk),
+    Chk("C01", "own_signature_verifies", r.verifies /\ e.sig_math),
+    Chk("C01", "signature_bound_to_message", ~r.verifies_other_msg),
+    Chk("C01", "signature_form", KBase(e.kt) = "var" \/ (Len(r.sig) = 64 /\ (secp => LowS(r.sig))))>>
+
+KeyGenChecks(e) ==
+  <<Chk("C03", "keygen_panics", e.panics = <<>>),
+    Chk("C17", "generated_secret_is_valid", IF e.scheme = "secp" THEN ValidScalar(e.export) ELSE Len(e.export) = 32),
+    Chk("C17", "generated_public_key_is_derived_from_secret", <<e.public>> = e.indep_pub),
+    Chk("C17", "generated_key_reimports", e.reimport_ok /\ e.reimport_public = e.public),
+    Chk("C17", "public_key_entry_name", e.pkkey = PkKeyOf(e.scheme))>>
+
+(***************************************************************************)
 (* The trace machine                                                       *)
 (***************************************************************************)
 ChecksOf(e) ==
@@ -486,6 +518,9 @@ ChecksOf(e) ==
     [] e.t = "list"      -> ListChecks(e)
     [] e.t = "nodeid"    -> NodeIdChecks(e)
     [] e.t = "keyimport" -> KeyChecks(e)
+    [] e.t = "enclist"   -> EncListChecks(e)
+    [] e.t = "pubkey"    -> PubKeyChecks(e)
+    [] e.t = "keygen"    -> KeyGenChecks(e)
     [] OTHER             -> <<>>
 
 Bind(rs, h, c) == IF h = "" THEN rs ELSE (h :> c) @@ rs
